@@ -51,6 +51,23 @@ def ref_store_if_positive(prog, env: Env) -> None:
             env.write(eq.target, v)
 
 
+def guard_converter(symbol):
+    """A converter whose code carries an assertion (a guard the built class must keep, whichever way it is built)."""
+    lhs, rhs = map(str.strip, symbol.code.split('=', maxsplit=1))
+    return '''\
+_ = {}
+assert _ > 0, 'guard'
+{} = _'''.format(rhs, lhs)
+
+
+def ref_assert_positive(prog, env: Env) -> None:
+    for eq in evaluation_order(prog):
+        v = interp(eq.expr, env)
+        if not (v > 0):
+            raise AssertionError('guard')
+        env.write(eq.target, v)
+
+
 def _exec_class(code: str):
     ns: Dict[str, Any] = {}
     exec('from typing import Any, Dict, List, Optional\nimport numpy as np\nfrom fsic import BaseModel\n', ns)  # noqa: S102
@@ -61,10 +78,24 @@ def _exec_class(code: str):
 
 
 VARIANTS = ['build', 'exec_definition', 'exec_CODE', 'build_untyped', 'exec_definition_untyped', 'identity_converter',
-            'wrapper_converter', 'wrapper_converter_exec']
+            'wrapper_converter', 'wrapper_converter_exec', 'guard_converter', 'guard_converter_exec']
 
 
 def make_variant(symbols, name: str):
+    """Every variant is built TWICE and the second result is the one examined (the builder must not remember anything
+    from the first build: same converter object, same symbols); the two CODE texts must be identical."""
+    first, _ = _make_variant(symbols, name)
+    second, runner = _make_variant(symbols, name)
+    if getattr(first, 'CODE', None) != getattr(second, 'CODE', None):
+        raise AssertionError(f'the second build of variant {name} differs from the first')
+    return second, runner
+
+
+def _make_variant(symbols, name: str):
+    if name == 'guard_converter':
+        return fsic.build_model(symbols, converter=guard_converter), ref_assert_positive
+    if name == 'guard_converter_exec':
+        return _exec_class(fsic.build_model_definition(symbols, converter=guard_converter)), ref_assert_positive
     if name == 'build':
         return fsic.build_model(symbols), None
     if name == 'exec_definition':
@@ -212,6 +243,9 @@ def main() -> int:
     # the wrapping converter adds one fork per equation: keep it to programs with few joint paths
     items = [(p, v, None) for p in pool for v in variants
              if not (v.startswith('wrapper') and len(p) + fork_nodes(p) > (3 if tier == 'quick' else 4))]
+    if tier == 'quick':   # the converters left out of the quick list, on the fixed programs with few joint paths
+        items += [(p, v, None) for p in ps['fixed'] for v in ('guard_converter', 'guard_converter_exec', 'wrapper_converter_exec')
+                  if len(p) + fork_nodes(p) <= 3]
     results = run_items(work, items, soft_items=ps['sampled'])
     for b in empty_model_case():
         rep.violation('empty-or-equationless:' + b[:40], b, {'case': b})
@@ -226,7 +260,7 @@ def main() -> int:
                 '(wrapper converter: against store-only-if-positive semantics) over symbolic cells, t, L; concrete part: class attributes, '
                 'lags/leads settings, converter call count/order, empty symbol list',
         'functions_encoded': ['fsic.parser.build_model', 'build_model_definition + exec', 'Model.CODE + exec', 'generated _evaluate of each variant'],
-        'outside_claim': ['programs outside the enumerated/sampled set', 'verbatim-only programs', 'converters other than the three named'],
+        'outside_claim': ['programs outside the enumerated/sampled set', 'verbatim-only programs', 'converters other than the four named (identity, store-if-positive wrapper, assertion guard, recording)'],
     })
     return rep.finish()
 
